@@ -175,6 +175,7 @@ void World::run_atomic()
     std::vector<FaultSpec> positions;
     const bool single = probe.fault.kind != FK_NONE;  // replay of one position
     const bool force_retry = plan.cfg.profile == "atomic_retry";
+    const bool chain_mode = single && (plan.cfg.profile == "atomic_chain" || !probe.pre.empty());
     Step clean_probe = probe;
     clean_probe.fault = FaultSpec{};
     // F1: every statement x three codes (exhaustive)
@@ -213,6 +214,36 @@ void World::run_atomic()
         positions.push_back(f);
     }
     size_t n_f3 = positions.size() - n_f1;
+    // F3-persistent: the same addressed call fails and the device stays broken (that method on that file keeps failing;
+    // SQLITE_FULL: nothing on the disk can grow) until the API call returns - also while the library rolls back
+    std::vector<FaultSpec> persistent;
+    {
+        std::vector<size_t> pv;
+        for (auto i : vi)
+            if (vcalls[i].method == VM_WRITE || vcalls[i].method == VM_READ || vcalls[i].method == VM_SYNC ||
+                vcalls[i].method == VM_TRUNCATE || vcalls[i].method == VM_LOCK || vcalls[i].method == VM_DELETE ||
+                vcalls[i].method == VM_OPEN || vcalls[i].method == VM_FILESIZE)
+                pv.push_back(i);
+        const size_t cap = plan.cfg.profile == "atomic_chain" ? 128 : 48;
+        if (pv.size() > cap)
+        {
+            for (size_t i = pv.size(); i > 1; --i)
+                std::swap(pv[i - 1], pv[r.below(i)]);
+            pv.resize(cap);
+            std::sort(pv.begin(), pv.end());
+        }
+        for (auto i : pv)
+        {
+            FaultSpec f;
+            f.kind = FK_VFS;
+            f.method = vcalls[i].method;
+            f.role = vcalls[i].role;
+            f.pos = vcalls[i].ordinal;
+            f.persist = 1;
+            f.code = f.method == VM_WRITE ? ((r.next() & 1) ? SQLITE_FULL : SQLITE_IOERR_WRITE) : vfs_code_for(f.method, 0);
+            persistent.push_back(f);
+        }
+    }
     // F2: every tick up to 256 positions
     {
         uint64_t cnt = std::min<uint64_t>(Nt, 256);
@@ -257,6 +288,9 @@ void World::run_atomic()
             positions.push_back(f);
         }
     size_t n_f9 = positions.size() - n_f1 - n_f3 - n_f2 - n_f4;
+    for (auto& f : persistent)
+        positions.push_back(f);
+    enumj.set("f3_persistent_positions", (long long)persistent.size());
     enumj.set("f9_positions", (long long)n_f9);
     enumj.set("f1_positions", (long long)n_f1);
     enumj.set("f1_exhaustive", true);
@@ -270,8 +304,67 @@ void World::run_atomic()
     if (single)
     {
         positions.clear();
-        positions.push_back(probe.fault);
+        if (!chain_mode)
+            positions.push_back(probe.fault);
     }
+    // usability after a failed attempt that left the world in S: the same call, fault-free, must succeed and give the
+    // fault-free post-state; on request its effect must also be on disk after close + reload
+    auto retry_and_reload = [&](const Step& failed, const char* derived_profile, bool with_reload) {
+        const FaultSpec& f = failed.fault;
+        size_t b2 = viols.size();
+        uniq = S.uniq;
+        exec_step(clean_probe);
+        if (!(last_call.valid && !last_call.threw))
+            report("C14", "C14|" + opname + "|" + fam() + "|unusable-after-failure|" + fault_site(f),
+                   "after a failed " + opname + " the same call fails again without any fault");
+        else if (prev.hash() != hash_post)
+            report("C14", "C14|" + opname + "|" + fam() + "|retry-differs|" + fault_site(f),
+                   "retrying " + opname + " after a failed attempt gives a different state than a first attempt");
+        else if (with_reload)
+        {
+            // "the library stays usable": what the retry wrote must also reach the disk
+            // (handles to removed entities are not carried across a reload: compare like with like)
+            auto gone = [](auto& h) {
+                try
+                {
+                    return !h->is_valid();
+                }
+                catch (...)
+                {
+                    return true;
+                }
+            };
+            for (auto& t : tracks)
+                if (t.h && (!t.live || gone(t.h)))  // a table-API remove leaves the slot "live" in L's bookkeeping
+                {
+                    t.h.reset();
+                    t.live = false;
+                }
+            for (auto& c : crates)
+                if (c.h && (!c.live || gone(c.h)))
+                {
+                    c.h.reset();
+                    c.live = false;
+                }
+            uint64_t before_reload = observe().hash();
+            Step rl;
+            rl.op = "reload";
+            rl.vseed = plan.seed ^ 0xD0AB1E;
+            exec_step(rl);
+            if (!stop && prev.hash() != before_reload)
+                report("C14", "C14|" + opname + "|" + fam() + "|lost-after-reload|" + fault_site(f),
+                       "after a failed " + opname + " the retried call succeeded, but its effect is gone after close and reload");
+            probes.hit("atomic_retry_reloaded");
+        }
+        for (size_t v = b2; v < viols.size(); ++v)
+        {
+            Plan d = plan;
+            d.cfg.profile = derived_profile;
+            d.steps.back() = failed;
+            derived[viols[v].key] = d.to_json();
+        }
+        probes.hit("atomic_retry_checked");
+    };
     // ---- enumeration
     accept_post_hash = hash_post;
     have_accept_post = true;
@@ -329,61 +422,95 @@ void World::run_atomic()
         if (!stop && last_call.valid && last_call.threw && viols.size() == before && !committed_anyway &&
             have_prev && prev.hash() == hash_S && (force_retry || (!single && r.chance(1, 8))))
         {
-            size_t b2 = viols.size();
-            uniq = S.uniq;
-            exec_step(clean_probe);
-            if (!(last_call.valid && !last_call.threw))
-                report("C14", "C14|" + opname + "|" + fam() + "|unusable-after-failure|" + fault_site(f),
-                       "after a failed " + opname + " the same call fails again without any fault");
-            else if (prev.hash() != hash_post)
-                report("C14", "C14|" + opname + "|" + fam() + "|retry-differs|" + fault_site(f),
-                       "retrying " + opname + " after a failed attempt gives a different state than a first attempt");
-            else if (force_retry || r.chance(1, 2))
+            retry_and_reload(s, "atomic_retry", force_retry || r.chance(1, 2));
+            at_S = false;
+        }
+    }
+    // ---- fault sequences: several faulted attempts of the same call in place - same connection, no restore, whatever
+    // the earlier failures left behind in the pager / statement cache / transaction state - then a fault-free retry whose
+    // effect must reach the disk.  Each attempt is judged exactly like a single one.
+    auto run_chain = [&](const std::vector<FaultSpec>& chain) {
+        if (!restore_state(S))
+            return;
+        if (prev.hash() != hash_S)
+        {
+            stop = true;
+            stop_reason = "restore did not reproduce state S";
+            return;
+        }
+        std::vector<FaultSpec> done;
+        bool still_S = true;
+        Step s = probe;
+        for (size_t ci = 0; ci < chain.size() && !stop; ++ci)
+        {
+            s = probe;
+            s.fault = chain[ci];
+            s.pre = done;
+            size_t before = viols.size();
+            uniq = S.uniq;  // the attempt must generate the same arguments as the dry run did
+            g_sim_clock = S.clock;
+            exec_step(s);
+            ++attempts;
+            bool ffired = last_call.valid && last_call.fault_fired;
+            if (ffired)
+                ++fired;
+            if (last_call.valid && last_call.threw)
+                ++threw;
+            else
             {
-                // "the library stays usable": what the retry wrote must also reach the disk
-                // (handles to removed entities are not carried across a reload: compare like with like)
-                auto gone = [](auto& h) {
-                    try
-                    {
-                        return !h->is_valid();
-                    }
-                    catch (...)
-                    {
-                        return true;
-                    }
-                };
-                for (auto& t : tracks)
-                    if (t.h && (!t.live || gone(t.h)))  // a table-API remove leaves the slot "live" in L's bookkeeping
-                    {
-                        t.h.reset();
-                        t.live = false;
-                    }
-                for (auto& c : crates)
-                    if (c.h && (!c.live || gone(c.h)))
-                    {
-                        c.h.reset();
-                        c.live = false;
-                    }
-                uint64_t before_reload = observe().hash();
-                Step rl;
-                rl.op = "reload";
-                rl.vseed = plan.seed ^ 0xD0AB1E;
-                exec_step(rl);
-                if (!stop && prev.hash() != before_reload)
-                    report("C14", "C14|" + opname + "|" + fam() + "|lost-after-reload|" + fault_site(f),
-                           "after a failed " + opname + " the retried call succeeded, but its effect is gone after close and reload");
-                probes.hit("atomic_retry_reloaded");
+                ++completed;
+                if (last_call.valid && ffired && !stop && prev.hash() != hash_post)
+                    report("C14", "C14|" + opname + "|" + fam() + "|neither-before-nor-after|" + fault_site(chain[ci]),
+                           opname + " returned normally although a fault fired, and the state is not the one a fault-free call produces");
             }
-            for (size_t v = b2; v < viols.size(); ++v)
+            for (size_t v = before; v < viols.size(); ++v)
             {
                 Plan d = plan;
-                d.cfg.profile = "atomic_retry";
+                d.cfg.profile = "atomic_chain";
                 d.steps.back() = s;
                 derived[viols[v].key] = d.to_json();
             }
-            probes.hit("atomic_retry_checked");
-            at_S = false;
+            done.push_back(chain[ci]);
+            if (ci > 0 && ffired)
+                probes.hit("atomic_chain_later_fault_fired");
+            still_S = last_call.valid && last_call.threw && have_prev && prev.hash() == hash_S && viols.size() == before;
+            if (!still_S)
+                break;
         }
+        if (still_S && !stop)
+        {
+            probes.hit("atomic_chain_completed");
+            retry_and_reload(s, "atomic_chain", true);
+        }
+    };
+    if (single && chain_mode)
+    {
+        std::vector<FaultSpec> c = probe.pre;
+        c.push_back(probe.fault);
+        run_chain(c);
+    }
+    else if (!single && !stop)
+    {
+        // real-path faults (they can leave pager error state, a hot journal or a half-finished rollback behind) first,
+        // any kind afterwards
+        std::vector<size_t> real;
+        for (size_t i = 0; i < positions.size(); ++i)
+            if (positions[i].kind == FK_VFS || positions[i].kind == FK_TICK || positions[i].kind == FK_MALLOC)
+                real.push_back(i);
+        int n_chains = positions.empty() ? 0 : (plan.cfg.profile == "atomic_chain" ? 40 : 6);
+        uint64_t chains_run = 0;
+        for (int c = 0; c < n_chains && !stop && !real.empty(); ++c)
+        {
+            std::vector<FaultSpec> chain;
+            size_t len = 2 + r.below(2);
+            chain.push_back(positions[real[r.below(real.size())]]);
+            while (chain.size() < len)
+                chain.push_back(r.chance(2, 3) ? positions[real[r.below(real.size())]] : positions[r.below(positions.size())]);
+            run_chain(chain);
+            ++chains_run;
+        }
+        enumj.set("fault_sequences", (long long)chains_run);
+        probes.hit("atomic_chains", chains_run);
     }
     enumj.set("attempts", (long long)attempts);
     enumj.set("faults_fired", (long long)fired);
@@ -406,7 +533,7 @@ std::string fault_site(const FaultSpec& f)
         case FK_MALLOC: return "F4";
         case FK_LOCK: return std::string("F9:lock-held:") + file_role_name(f.role);
         case FK_VFS:
-            return std::string("F3:") + vfs_method_name(f.method) + ":" + file_role_name(f.role);
+            return std::string("F3:") + vfs_method_name(f.method) + ":" + file_role_name(f.role) + (f.persist ? ":persist" : "");
         default: return "none";
     }
 }
